@@ -1,15 +1,11 @@
 package trzsz
 
-func verifNondetByte() byte
-func verifNondetInt() int
-func verifNondetBool() bool
-func verifAssume(bool)
-func verifAssert(bool, string)
-func verifReach(string)
-func verifExpectBlock(int)
+// C03 — stream reassembly is independent of chunking.
+// Every harness builds a stream of N fully symbolic bytes, cuts it at a symbolic subset of the N-1 positions into
+// non-empty reads, feeds the chunks to the real trzszBuffer and compares each operation's outcome with a reference
+// parser that works on the concatenated stream with a single cursor (written here from the property text).
 
-// reference: parse one line from s starting at pos.
-// status: 0 ok, 1 interrupted, 2 incomplete
+// zzRefReadLine parses one line from s starting at pos. status: 0 ok, 1 interrupted, 2 incomplete.
 func zzRefReadLine(s []byte, pos int, junk bool) (line []byte, status int, newPos int) {
 	var acc []byte
 	for i := pos; i < len(s); i++ {
@@ -29,21 +25,33 @@ func zzRefReadLine(s []byte, pos int, junk bool) (line []byte, status int, newPo
 	return nil, 2, len(s)
 }
 
-const zzN = 5
-
-func zzH_C03_line() {
-	stream := make([]byte, zzN)
+// zzFeed creates the stream and enqueues it under an arbitrary segmentation into non-empty chunks.
+func zzFeed(n int) (*trzszBuffer, []byte) {
+	stream := make([]byte, n)
 	for i := range stream {
 		stream[i] = verifNondetByte()
 	}
 	b := newTrzszBuffer()
 	start := 0
-	for i := 0; i < zzN; i++ {
-		if i == zzN-1 || verifNondetBool() {
+	for i := 0; i < n; i++ {
+		if i == n-1 || verifNondetBool() {
 			b.addBuffer(stream[start : i+1])
 			start = i + 1
 		}
 	}
+	return b, stream
+}
+
+func zzSameBytes(got, want []byte, label string) {
+	verifAssert(len(got) == len(want), label+": length")
+	for i := range want {
+		verifAssert(got[i] == want[i], label+": content")
+	}
+}
+
+// one line read (strict or junk tolerant) over all streams and segmentations
+func zzH_C03_line() {
+	b, stream := zzFeed(verifBound("N"))
 	junk := verifNondetBool()
 	ref, st, _ := zzRefReadLine(stream, 0, junk)
 	if st == 2 {
@@ -53,19 +61,82 @@ func zzH_C03_line() {
 	}
 	line, err := b.readLine(junk, nil)
 	verifExpectBlock(0)
-	if st == 2 {
-		verifAssert(false, "returned although line incomplete")
-		return
-	}
 	if st == 1 {
 		verifAssert(err != nil, "interrupt expected")
 		verifReach("interrupted")
 		return
 	}
 	verifAssert(err == nil, "no error expected")
-	verifAssert(len(line) == len(ref), "length")
-	for i := range ref {
-		verifAssert(line[i] == ref[i], "content")
-	}
+	zzSameBytes(line, ref, "line")
 	verifReach("line-ok")
+}
+
+// a sequence of OPS operations (strict line / junk line / sized block) against the single-cursor reference
+func zzH_C03_ops() {
+	n := verifBound("N")
+	b, stream := zzFeed(n)
+	pos := 0
+	for op := 0; op < verifBound("OPS"); op++ {
+		kind := verifNondetRange(0, 2)
+		if kind == 2 {
+			size := verifNondetRange(0, n)
+			if pos+size > n {
+				verifExpectBlock(2)
+			} else {
+				verifExpectBlock(1)
+			}
+			blk, err := b.readBinary(size, nil)
+			verifExpectBlock(0)
+			verifAssert(err == nil, "block: no error expected")
+			zzSameBytes(blk, stream[pos:pos+size], "block")
+			pos += size
+			verifReach("block-ok")
+			continue
+		}
+		junk := kind == 1
+		ref, st, np := zzRefReadLine(stream, pos, junk)
+		if st == 2 {
+			verifExpectBlock(2)
+		} else {
+			verifExpectBlock(1)
+		}
+		line, err := b.readLine(junk, nil)
+		verifExpectBlock(0)
+		if st == 1 {
+			verifAssert(err != nil, "interrupt expected")
+			verifReach("interrupted")
+			return // the cursor after an interrupt is unspecified
+		}
+		verifAssert(err == nil, "line: no error expected")
+		zzSameBytes(line, ref, "line")
+		pos = np
+		verifReach("line-ok")
+	}
+	verifReach("ops-done")
+}
+
+// the relay's use: after one successful read, popBuffer hands out exactly the unread rest of the stream, in order
+func zzH_C03_pop() {
+	n := verifBound("N")
+	b, stream := zzFeed(n)
+	junk := verifNondetBool()
+	ref, st, np := zzRefReadLine(stream, 0, junk)
+	verifAssume(st == 0)
+	verifExpectBlock(1)
+	line, err := b.readLine(junk, nil)
+	verifExpectBlock(0)
+	verifAssert(err == nil, "line: no error expected")
+	zzSameBytes(line, ref, "line")
+	var rest []byte
+	for k := 0; k <= n; k++ {
+		buf := b.popBuffer()
+		if buf == nil {
+			break
+		}
+		verifAssert(len(buf) > 0, "pop: empty chunk")
+		rest = append(rest, buf...)
+	}
+	verifAssert(b.popBuffer() == nil, "pop: more chunks than bytes")
+	zzSameBytes(rest, stream[np:], "pop")
+	verifReach("pop-ok")
 }
